@@ -278,15 +278,7 @@ Proof.
     + exact Hin.
 Qed.
 
-Lemma NoDup_app_intro {A} (a b : list A) :
-  NoDup a -> NoDup b -> (forall x, In x a -> In x b -> False) -> NoDup (a ++ b).
-Proof.
-  intros Ha Hb D. induction Ha as [|x a Nin Ha IH]; [exact Hb|].
-  cbn [app]. constructor.
-  - intros Hin. apply in_app_or in Hin. destruct Hin as [Hin|Hin]; [contradiction|].
-    apply (D x); [left; reflexivity|exact Hin].
-  - apply IH. intros y Hy. apply D. right. exact Hy.
-Qed.
+Definition NoDup_app_intro {A} := @NoDup_app_intro_spec A.
 
 (** every resource is enumerated once: the paths of [all_nodes] are distinct *)
 Lemma all_nodes_nodup t : forall p, tree_ok t = true -> NoDup (map fst (all_nodes p t)).
